@@ -1,6 +1,7 @@
 import DV.InsModel
 import DV.TokDrv
 import DV.EncModel
+import DV.ReseedModel
 open InsModel
 def handle (line : String) : String :=
   match (line.trimAscii.toString.splitOn " ") with
@@ -16,6 +17,15 @@ def handle (line : String) : String :=
       let root := ((List.range n).find? (fun j => par[j]! == -1)).getD 0
       let t := EncModel.build (n+1) par tax root
       " ".intercalate ((EncModel.sortPairs (EncModel.encode (r == "1") t)).map (fun p => s!"{p.1}:{p.2}"))
+    | _, _ => "bad-op"
+  | "reseed" :: u :: c :: sp :: tgt :: n :: rest =>
+    match n.toNat?, tgt.toNat? with
+    | some n, some tgt =>
+      let par := ((rest.take n).map (fun x => x.toInt?.getD 0)).toArray
+      let lens := ((rest.drop n).map (fun x => if x == "N" then none else x.toInt?)).toArray
+      let root := ((List.range n).find? (fun j => par[j]! == -1)).getD 0
+      let t := ReseedModel.build (n+1) par lens root
+      ReseedModel.render (ReseedModel.reseed (u == "1") (c == "1") (sp == "1") tgt t)
     | _, _ => "bad-op"
   | ["tokens", pu, h] => " ".intercalate (TokDrv.allTokens (pu == "1") (TokDrv.unhex h.toList) [])
   | ["tokens", pu] => " ".intercalate (TokDrv.allTokens (pu == "1") [] [])
